@@ -534,7 +534,7 @@ fn work_dir() -> PathBuf {
     // inside the run directory of the parent (removed when the check ends)
     let base = std::env::var_os("BPAF_VERIF_RUNDIR")
         .map(PathBuf::from)
-        .unwrap_or_else(|| PathBuf::from(crate::engine::VERIF).join("work"));
+        .unwrap_or_else(|| PathBuf::from(crate::engine::verif_root()).join("work"));
     let d = base.join(format!("c15-{}", std::process::id()));
     let _ = fs::create_dir_all(&d);
     d
